@@ -164,7 +164,7 @@ def check(spec, ctx):
             doc, t = tl.run(spec, backend, ctx)
         except Violation as v:
             raise Violation(v.bucket, "%s export: %s" % (backend, v.msg))
-        if not doc or (backend == "svg" and not doc.startswith("<svg")) or (backend == "tex" and "\\begin{tikzpicture}" not in doc):
+        if not doc or (backend == "svg" and "<svg" not in doc) or (backend == "tex" and "\\begin{tikzpicture}" not in doc):
             raise Violation("empty-document", "%s export returned %r..." % (backend, doc[:60]))
         dom = t.options["scale"].domain()
         if dom[0] == dom[1]:
